@@ -877,9 +877,12 @@ COMMUTING = (
 )
 
 
+# soft per-shard time guard of the quick tier (seconds); raise it on an overloaded machine to run every case
+_QT = float(os.environ.get('C06_QUICK_TIME', '100') or 100)
+
 SUBCHECKS = [
-    SubCheck('api', lambda: SPEC, run_api, quick=1200, thorough=40000, enumerate=enumerate_api, quick_time=100.0, thorough_time=1100.0),
-    SubCheck('eqhash', lambda: SPEC, run_eq, quick=250, thorough=8000, enumerate=enumerate_eq, quick_time=100.0, thorough_time=1100.0),
+    SubCheck('api', lambda: SPEC, run_api, quick=1200, thorough=40000, enumerate=enumerate_api, quick_time=_QT, thorough_time=1100.0),
+    SubCheck('eqhash', lambda: SPEC, run_eq, quick=250, thorough=8000, enumerate=enumerate_eq, quick_time=_QT, thorough_time=1100.0),
 ]
 
 def chain_names(spec):
